@@ -189,7 +189,7 @@ def _run_shard(binary, reqs, timeout_s):
     return resps, nxt, head + err[-3000:]
 
 
-def run_cases(reqs, binary=None, nproc=None, shard_timeout_s=1800, label="", isolate=False):
+def run_cases(reqs, binary=None, nproc=None, shard_timeout_s=1800, label="", isolate=False, retry_timeouts=True):
     """Execute requests on the real interpreter; returns dict id -> response.
 
     A worker that dies or times out on a case is restarted; the case is re-run
@@ -238,6 +238,17 @@ def run_cases(reqs, binary=None, nproc=None, shard_timeout_s=1800, label="", iso
         for res in ex.map(work, shards):
             results.update(res)
     log(f"[worker] {label} {len(reqs)} cases in {time.time()-t0:.1f}s on {nshards} workers")
+    # a wall-clock deadline that expired says as much about the machine as about the program: such cases are asked again, a few at a time,
+    # with a deadline six times as long (at least a minute), before anyone looks at them
+    if retry_timeouts:
+        late = [r for r in reqs if results.get(r["id"], {}).get("end") == "discarded:timeout"]
+        if late and len(late) <= 40:
+            log(f"[worker] {label} {len(late)} cases hit their deadline, asking again with a longer one")
+            redo = [dict(r, deadline_ms=max(60000, 6 * int(r.get("deadline_ms") or 10000))) for r in late]
+            second = run_cases(redo, binary=binary, nproc=8, shard_timeout_s=shard_timeout_s, label=label + " (late)", isolate=True, retry_timeouts=False)
+            for r in late:
+                if r["id"] in second:
+                    results[r["id"]] = second[r["id"]]
     missing = [r["id"] for r in reqs if r["id"] not in results]
     if missing and len(missing) <= 50:       # a response lost in the pipe protocol: ask again, alone, before giving up
         log(f"[worker] {label} {len(missing)} cases without a response, re-running them alone: {missing[:3]}")
